@@ -129,7 +129,8 @@ func H02e() {
 	r := Wrapper{storageEngine: hC02Engine{db: db}, auth: hC02Auth{publicURL: publicURL}, vcr: hC02VCR{v: ver}, policyBackend: pol}
 
 	// a nonce that was used before
-	vAssert(r.s2sNonceStore().Put("x", true) == nil, "H02e.setup: cannot store nonce")
+	// (through the session database, not through Wrapper.s2sNonceStore: unexported helpers may change shape)
+	vAssert(db.GetStore(time.Hour, "s2s", "nonce").Put("x", true) == nil, "H02e.setup: cannot store nonce")
 
 	n := vLen(0, vParam("e_vps", 2))
 	var specs []hC02EPres
